@@ -254,6 +254,34 @@ INJECT = {"quick": (40, 8), "thorough": (500, 20)}
 STRESS = {"quick": (8, 8000), "thorough": (48, 60000)}
 
 
+# I/O fault injection: (scenarios, points sampled per scenario). Thread A's k-th file-system call (or delete offset
+# resolver) fails once; afterwards thread B runs, the content is read, the database is closed and reopened: nothing
+# may hang on a lock leaked on the error path, nothing may panic.
+FAULT = {"quick": (10, 6), "thorough": (120, 16)}
+
+
+def gen_fault_cases(rng, nscen, per):
+    out = []
+    while len(out) < nscen * per:
+        sc = gen_inject_scenario(rng)
+        if sc["kind"] in CONFLICT_KINDS:
+            continue
+        sc["mode"] = "fault"
+        # thread B: operations that need the locks thread A's failed operation may have leaked
+        if sc["level"] == "domain":
+            sc["threads"][1] = sc["threads"][1] + [_dwrite(900, 2, rng), {"op": "dread"}, {"op": "ddelete", "a": 11, "b": 13}]
+        else:
+            sc["threads"][1] = sc["threads"][1] + [
+                {"op": "write", "g": 1, "start": 200000, "n": 2, "step": 1, "chunks": 1, "commits": "end"},
+                {"op": "read", "g": 1, "a": 0, "b": 10 ** 9}]
+        off = rng.random() / per
+        for j in range(per):
+            c = json.loads(json.dumps(sc))
+            c["kfrac"] = min(0.999, j / per + off)
+            out.append(c)
+    return out
+
+
 def gen_stress_scenario(rng):
     """bare domain.DB: one delete of a non-empty range that cuts into existing domains, racing with 1-3 writers that
     commit new domains at free spots outside the deleted range (pairwise independent; every op must succeed)"""
@@ -324,7 +352,10 @@ def gen_cases(rng, tier, n):
     sn, si = STRESS.get(tier, (4, 4000))
     if n < COUNTS.get(tier, n):
         sn = max(2, sn * n // COUNTS[tier])
-    return free + gen_inject_cases(rng, ns, per) + gen_stress_cases(rng, sn, si)
+    fn, fp = FAULT.get(tier, (4, 4))
+    if n < COUNTS.get(tier, n):
+        fn = max(2, fn * n // COUNTS[tier])
+    return free + gen_inject_cases(rng, ns, per) + gen_stress_cases(rng, sn, si) + gen_fault_cases(rng, fn, fp)
 
 
 def c_action(o):
@@ -379,6 +410,10 @@ CONFLICT_KINDS = ("delidx_vs_write_inside", "delidxonly_vs_datawrite")
 
 
 def to_coq(case, r):
+    if case.get("mode") == "fault":
+        # judged by the harness (stall / panic); an operation that REPORTED FAILURE may have taken partial effect, so the
+        # content is not compared with a serial run of the successful operations
+        return "(Case [] [] [] [] [] [] [] false true)"
     conc, ser = r["conc"], r["serial"]
     threads = []
     for ti, th in enumerate(case["threads"]):
@@ -402,6 +437,9 @@ def to_coq(case, r):
 
 def nontrivial(case, r):
     outs = r["conc"].get("outcomes") or []
+    if case.get("mode") == "fault":
+        flat = [x for o in outs for x in o]
+        return bool(flat) and any(x != "ok" for x in flat) and any(x == "ok" for x in flat)
     if case.get("mode") == "stress":
         return bool(outs) and all(any(x == "ok" for x in o) for o in outs) and (r.get("iters") or 0) > 0
     if case.get("mode") == "inject":
@@ -420,6 +458,9 @@ def nontrivial(case, r):
 
 
 def histogram(case, r):
+    if case.get("mode") == "fault":
+        flat = [x for o in (r["conc"].get("outcomes") or []) for x in o]
+        return ["fault:%s:%s" % (case["level"], case.get("kind")), "fault_hit_an_operation=%s" % any(x != "ok" for x in flat)]
     if case.get("mode") == "stress":
         return ["stress:%s" % case.get("kind"), "stress_repetitions=%s" % r.get("iters")]
     if case.get("mode") == "inject":
@@ -436,6 +477,12 @@ def histogram(case, r):
 
 def neighbours(case, rng):
     out = []
+    if case.get("mode") == "fault":
+        for j in range(24):
+            c = json.loads(json.dumps(case))
+            c["kfrac"] = j / 24.0
+            out.append(c)
+        return out
     if case.get("mode") == "stress":
         for p in (2, 4, 8):
             c = json.loads(json.dumps(case))
